@@ -8,6 +8,7 @@
 
      Rebootstrap      a node whose store already holds state must not StartNode
      ResumeOlder      the store a node restarts from is not older than what it saved
+     ResumeNewer      nor does it hold entries beyond the last save (a truncated suffix stays truncated)
      Unattested       a granted vote / a positive append response leaves only when the
                       term, vote and entries it attests are durable (RaftHost!Attested)
      ApplyMismatch    no two replicas apply different entries at one index
@@ -82,6 +83,8 @@ Step ==
                 had == t.hsterm > 0 \/ t.last > 0 \/ t.snapidx > 0
             IN /\ viol' = viol \cup (IF had /\ t.mode = "start" THEN {<<l, "Rebootstrap">>} ELSE {})
                                \cup (IF t.hsterm < dTerm[n] \/ t.last < dLast[n] THEN {<<l, "ResumeOlder">>} ELSE {})
+                               \* ... nor does it hold entries beyond what was saved last (a suffix that was cut off stays cut off)
+                               \cup (IF dLast[n] > 0 /\ t.last > dLast[n] THEN {<<l, "ResumeNewer">>} ELSE {})
                                \cup SnapConfViol(t)
                /\ lastApplied' = [lastApplied EXCEPT ![n] = t.snapidx]
                /\ UNCHANGED <<dTerm, dVote, dLast, dLog, appliedAt, submitted, acked>>
